@@ -232,8 +232,10 @@ CROWD4_KINDS = ('bright elongated source; abuts label 4 along a diagonal border 
 
 def _image3(seed):
     """Scene of the 'crowd4*' variants: a crowded field.  Four blended Gaussians whose segments (every pixel with
-    total model flux > 2 goes to the Gaussian that contributes most there -- structure independent of the seed up to the
-    sub-pixel jitter) touch each other: 7 - 3 - 4 - 11 is a chain of abutting segments with interlocking bounding boxes.
+    total model flux > 0.6 = 2 sigma of the noise goes to the Gaussian that contributes most there -- structure
+    independent of the seed up to the sub-pixel jitter; the low threshold gives the segments a faint fringe which the
+    sigma-clipped local-background estimate of a neighbour would NOT clip away if it were left unmasked) touch each
+    other: 7 - 3 - 4 - 11 is a chain of abutting segments with interlocking bounding boxes.
     The Kron ellipse (semi-axes 4 ... 8 pix), the r = 6 circle, the windowed-centroid / flux-fraction apertures and the
     local-background annulus of every source cover pixels of one or two OTHER segments (measured on the tree under test:
     coverage.crowd4_neighbours), so every aperture quantity depends on how the neighbours are treated
@@ -252,7 +254,7 @@ def _image3(seed):
             gs.append(Gaussian2D(a, x0 + jit[2 * k], y0 + jit[2 * k + 1], sx, sy, th)(xx, yy))
             img += gs[-1]
         gs = np.array(gs)
-        seg = np.where(gs.sum(axis=0) > 2.0, np.array(CROWD4_LABELS)[np.argmax(gs, axis=0)], 0)
+        seg = np.where(gs.sum(axis=0) > 0.6, np.array(CROWD4_LABELS)[np.argmax(gs, axis=0)], 0)
         mask = np.zeros((ny, nx), bool)
         mask[11:13, 8:10] = True
         err = rng.uniform(0.8, 1.2, (ny, nx))
